@@ -38,7 +38,7 @@ ASSUMPTIONS = c01.ASSUMPTIONS + [
 ]
 PROBES = ["variant_hashseed", "variant_cwd", "variant_moved_tree", "variant_symlink_tree", "variant_store_kind",
           "variant_extra_debug", "variant_graph_export", "variant_prehistory>=2", "variant_after_failed_eval",
-          "corpus_program_checked", "base_prehistory"]
+          "corpus_program_checked", "base_prehistory", "peer_process_recommits"]
 PRELOAD = []
 
 
@@ -88,10 +88,41 @@ def gen_case(streams, tier, avoid):
             var["pre"] = pre
             var["hashseed"] = v.choice([None, None] + HASHSEEDS)
         variants.append(var)
+    peer = None
+    if feat.get("loads") and prog["vars"] and v.random() < 0.4:
+        # another live process re-commits some paths (from another variable value) between the earlier evaluations
+        # and the compared one - in every variant, the canonical one included: what the store holds is the same
+        # everywhere, only the process (and its caches) that looks at it differs
+        from ..pipe.cone import Cones
+
+        prods = Cones(prog).producers()
+        mine = gen.reachable(prog, entry)
+        loaded = {it["path"] for fn in mine for it in prog["funcs"][fn]["body"] if it["t"] == "load"}
+        ext = {prods[p][1] for p in loaded if p in prods and prods[p][1] not in mine}
+        # preferably an entry point that produces a path the compared evaluation only loads, and a variable it reads
+        pe = [e for e in ents if e != entry and ext & gen.reachable(prog, e)] or ents
+        pentry = v.choice(pe)
+        read = sorted({it["name"] for fn in gen.reachable(prog, pentry) for it in prog["funcs"][fn]["body"] if it["t"] == "var"})
+        name = v.choice(read or sorted(prog["vars"]))
+        kind = prog["vars"][name]["kind"]
+        peer = {"entry": pentry, "var": name,
+                "value": v.choice([x for x in gen.VAR_VALUES[kind] if x != prog["vars"][name]["value"]] or gen.VAR_VALUES[kind])}
+        fixed = []
+        for x in variants:
+            if x["kind"] == "hashseed" or (x["kind"] == "store" and x["store"]["kind"] != "local"):
+                x = {"kind": "store", "store": {"kind": "local", "cache": v.choice([1, 2, 3, 10, True])}}
+            x["hashseed"] = None
+            fixed.append(x)
+        variants = fixed
+        if not any(x["kind"] == "store" for x in variants):
+            variants.append({"kind": "store", "store": {"kind": "local", "cache": v.choice([1, 2, 3, 10, True])}})
+    if peer is None and feat.get("loads") and not any(x.get("store", {}).get("kind") == "memory" for x in variants):
+        # what a load resolves to comes from the store: always compare with a store of another kind
+        variants.append({"kind": "store", "store": {"kind": "memory"}})
     # evaluations made before the compared one in EVERY variant (the canonical one included): paths produced by
     # other entry points are then resolved from the store by the loads of the compared evaluation
-    base = [e for e in ents if e != entry and v.random() < 0.6][:3]
-    return {"prog": prog, "feat": feat, "entry": entry, "variants": variants, "base_pre": base}
+    base = [e for e in ents if e != entry and v.random() < (0.8 if feat.get("loads") else 0.6)][:4]
+    return {"prog": prog, "feat": feat, "entry": entry, "variants": variants, "base_pre": base, "peer": peer}
 
 
 def _cmds(prog, entry, srcdir, store, root, var):
@@ -169,7 +200,28 @@ def _run_variant(prog, entry, root, idx, var):
         st["data"] = os.path.join(root, f"store{idx}", "data")
     cmds = _cmds(prog, entry, srcdir, st, root, v)
     hs = var.get("hashseed")
-    if hs:
+    peer = var.get("_peer")
+    if peer:
+        from ..pipe.world import _pyvalue
+
+        p = SimProcess()
+        try:
+            replies = [["ok", p.call(c)] for c in cmds[:-1]]
+            q = SimProcess()      # the peer: same files, same store directories, its own caches
+            try:
+                q.call(cmds[0])
+                vv = prog["vars"][peer["var"]]
+                pf = prog["funcs"][peer["entry"]]
+                q.call({"cmd": "mutate", "module": ir.modname(prog, vv["mod"]), "var": peer["var"],
+                        "value": copy.deepcopy(_pyvalue(vv["kind"], peer["value"])), "inplace": False})
+                q.call({"cmd": "eval", "entry": ir.modname(prog, pf["mod"]) + ":" + peer["entry"], "style": "eval", "options": {}})
+            finally:
+                q.kill()
+            replies.append(["ok", p.call(cmds[-1])])
+        finally:
+            p.kill()
+        env = {"hashseed": os.environ.get("PYTHONHASHSEED"), "hash_a": hash("a")}
+    elif hs:
         rep = zygote.request(hs, cmds)
         replies = rep["replies"]
         env = {"hashseed": rep["hashseed"], "hash_a": rep["hash_a"]}
@@ -236,7 +288,12 @@ def run_case(case):
         base = case.get("base_pre", [])
         if base:
             probe("base_prehistory")
-        canon, env0 = _run_variant(prog, entry, root, 0, {"kind": "canonical", "_base": base})
+        peer = case.get("peer")
+        if peer and (peer["entry"] not in prog["funcs"] or peer["var"] not in prog["vars"]):
+            peer = None
+        if peer:
+            probe("peer_process_recommits")
+        canon, env0 = _run_variant(prog, entry, root, 0, {"kind": "canonical", "_base": base, "_peer": peer})
         csigs = _sigs_of(canon)
         log.append(["canonical", canon["res"][:2], csigs])
         if canon["res"][0] != "ok":
@@ -244,7 +301,7 @@ def run_case(case):
             return {"violations": [], "log": log, "probes": probes, "nontrivial": False}
         saw_hs = saw_pre = False
         for idx, var in enumerate(case["variants"], start=1):
-            out, env = _run_variant(prog, entry, root, idx, dict(var, _base=base))
+            out, env = _run_variant(prog, entry, root, idx, dict(var, _base=base, _peer=peer))
             sigs = _sigs_of(out)
             k = var["kind"]
             probe({"hashseed": "variant_hashseed", "cwd": "variant_cwd", "moved": "variant_moved_tree",
